@@ -40,6 +40,7 @@ import (
 	"time"
 	"unicode/utf8"
 
+	"github.com/sirupsen/logrus"
 	"pgregory.net/rapid"
 
 	"github.com/cossacklabs/acra/crypto"
@@ -82,6 +83,13 @@ type MyWrite struct {
 	// chunks); the COM_STMT_EXECUTE that follows carries their types but not their values. This is the class of
 	// the proposed open finding long-data-parameter:mysql and is drawn only when VERIF_C11_LONGDATA is set.
 	LongData bool `json:"long_data,omitempty"`
+	// SQLPrep (insert / replace / update of one row): through the SQL syntax for prepared statements with COM_QUERY.
+	// The values are put into user variables named @<table>__<column> - the convention by which acra finds the
+	// column a variable is meant for and protects its value in the SET statement -, the statement is prepared with
+	// placeholders only and executed USING the variables: SET ...; PREPARE <name> FROM '...'; EXECUTE <name> USING
+	// ...; [DEALLOCATE PREPARE <name>]. Name, Spell, DQuote, Dealloc as for reads; Twice: one SET per variable
+	// instead of one SET for all; Using: variable names in upper case.
+	SQLPrep *MyPrep `json:"sql_prepare,omitempty"`
 }
 
 // MyRead is one SELECT every reader runs.
@@ -92,6 +100,46 @@ type MyRead struct {
 	Alias   bool `json:"alias,omitempty"`   // table alias and column aliases
 	Skip    int  `json:"skip,omitempty"`    // list: bit i set = column i (after the key) is left out
 	Twice   bool `json:"twice,omitempty"`   // list: the first masked column once more at the end
+	// Prep: through PREPARE / EXECUTE statements (Binary is ignored)
+	Prep *MyPrep `json:"prep,omitempty"`
+}
+
+// MyPrep makes a read go through the SQL syntax for prepared statements, sent with COM_QUERY (text protocol):
+// [SET @var = '<select>';] PREPARE <name> FROM '<select>' | @var; [SET @k = 0;] EXECUTE <name> [USING @k];
+// [DEALLOCATE | DROP PREPARE <name>]. MySQL does not distinguish letter case in statement names and user variable
+// names and accepts them back-quoted: every use of a name has a spelling of its own.
+type MyPrep struct {
+	Name string `json:"name"`
+	// Spell[k]: the name as written in PREPARE (0), EXECUTE (1), DEALLOCATE (2): 0 as it is, 1 lower case, 2 upper
+	// case; +4 = in back-quotes
+	Spell   []int  `json:"spell,omitempty"`
+	DQuote  bool   `json:"dquote,omitempty"`   // the statement text in double quotes
+	Using   bool   `json:"using,omitempty"`    // the SELECT ends with WHERE id <> ?, executed USING a variable that holds 0
+	FromVar string `json:"from_var,omitempty"` // the statement text is taken from this user variable (SET before)
+	Twice   bool   `json:"twice,omitempty"`    // executed twice
+	Dealloc int    `json:"dealloc,omitempty"`  // 0 left prepared, 1 DEALLOCATE PREPARE, 2 DROP PREPARE
+	// Unrestricted (writes): also the shapes of proposed fixes 03 / 04 - one SET statement for all variables although
+	// a protected one is empty, _binary before the literals of SET. Without it such a row gets one SET per variable and
+	// hex literals instead of _binary ones. The generator sets it when VERIF_C11_SQLPREP is set.
+	Unrestricted bool `json:"unrestricted,omitempty"`
+}
+
+func (p MyPrep) name(use int) string {
+	sp := 0
+	if use < len(p.Spell) {
+		sp = p.Spell[use]
+	}
+	n := p.Name
+	switch sp & 3 {
+	case 1:
+		n = strings.ToLower(n)
+	case 2:
+		n = strings.ToUpper(n)
+	}
+	if sp&4 != 0 {
+		n = "`" + n + "`"
+	}
+	return n
 }
 
 // MyMaskCase is one table, the rows the owner writes and the reads.
@@ -107,6 +155,9 @@ type MyMaskCase struct {
 	MultiInsert  bool     `json:"multi_insert,omitempty"`
 	DeprecateEOF bool     `json:"deprecate_eof,omitempty"`
 	Reads        []MyRead `json:"reads"`
+	// PrepFirst: the PREPARE statements of all reads that have one are sent before anything is executed (a later
+	// PREPARE under a name that is in use replaces the statement, as in MySQL)
+	PrepFirst bool `json:"prep_first,omitempty"`
 }
 
 // ---------------------------------------------------------------------------------------------
@@ -320,18 +371,50 @@ func genMyMaskCase(t *rapid.T) MyMaskCase {
 			if os.Getenv("VERIF_C11_LONGDATA") != "" {
 				w.LongData = rapid.IntRange(0, 3).Draw(t, label+".longdata") == 0
 			}
+		} else if w.Op != "ondup" && rapid.IntRange(0, 3).Draw(t, label+".sqlprep") == 0 {
+			p := &MyPrep{Name: rapid.SampledFrom([]string{"ins", "Upsert", "WRITE_1", "w2"}).Draw(t, label+".prep.name")}
+			for k := 0; k < 3; k++ {
+				p.Spell = append(p.Spell, rapid.SampledFrom([]int{0, 0, 1, 2, 4, 5, 6}).Draw(t, fmt.Sprintf("%s.prep.spell%d", label, k)))
+			}
+			p.DQuote = rapid.IntRange(0, 3).Draw(t, label+".prep.dquote") == 0
+			p.Twice = rapid.Bool().Draw(t, label+".prep.sets")
+			p.Using = rapid.IntRange(0, 3).Draw(t, label+".prep.upper") == 0
+			p.Dealloc = rapid.SampledFrom([]int{0, 1, 1, 2}).Draw(t, label+".prep.dealloc")
+			p.Unrestricted = mySQLPrepFindings()
+			w.SQLPrep = p
 		}
 		c.Writes = append(c.Writes, w)
 	}
 	c.MultiInsert = rapid.IntRange(0, 2).Draw(t, "multi_insert") == 0
 	c.DeprecateEOF = rapid.Bool().Draw(t, "deprecate_eof")
-	nreads := rapid.IntRange(1, 2).Draw(t, "nreads")
+	nreads := rapid.IntRange(1, 3).Draw(t, "nreads")
 	for i := 0; i < nreads; i++ {
 		label := fmt.Sprintf("rd%d", i)
 		rd := MyRead{Binary: rapid.Bool().Draw(t, label+".binary"), Star: rapid.IntRange(0, 2).Draw(t, label+".star") == 0}
 		if i == 1 {
 			// the second read uses the other protocol
 			rd.Binary = !c.Reads[0].Binary
+		}
+		if rapid.Bool().Draw(t, label+".prep") {
+			// a small pool of names: reads of one case share a name now and then (reused after DEALLOCATE, replaced
+			// by a second PREPARE)
+			p := &MyPrep{Name: rapid.SampledFrom([]string{"sel", "CardNumber", "STMT_1"}).Draw(t, label+".prep.name")}
+			for k := 0; k < 3; k++ {
+				p.Spell = append(p.Spell, rapid.SampledFrom([]int{0, 0, 1, 2, 4, 5, 6}).Draw(t, fmt.Sprintf("%s.prep.spell%d", label, k)))
+			}
+			p.DQuote = rapid.IntRange(0, 3).Draw(t, label+".prep.dquote") == 0
+			p.Using = rapid.IntRange(0, 2).Draw(t, label+".prep.using") == 0
+			if rapid.IntRange(0, 3).Draw(t, label+".prep.fromvar") == 0 {
+				// (capitals in the variable name: proposed fix 02; drawn when VERIF_C11_SQLPREP is set)
+				names := []string{"q", "stmt_text", "s1"}
+				if mySQLPrepFindings() {
+					names = append(names, "Q", "SqlText", "S1")
+				}
+				p.FromVar = rapid.SampledFrom(names).Draw(t, label+".prep.var")
+			}
+			p.Twice = rapid.IntRange(0, 3).Draw(t, label+".prep.twice") == 0
+			p.Dealloc = rapid.SampledFrom([]int{0, 1, 1, 2}).Draw(t, label+".prep.dealloc")
+			rd.Prep = p
 		}
 		if !rd.Star {
 			rd.Reverse = rapid.Bool().Draw(t, label+".reverse")
@@ -343,6 +426,7 @@ func genMyMaskCase(t *rapid.T) MyMaskCase {
 		}
 		c.Reads = append(c.Reads, rd)
 	}
+	c.PrepFirst = rapid.Bool().Draw(t, "prep_first")
 	return c
 }
 
@@ -356,6 +440,8 @@ type myRendered struct {
 	spellings []string
 	notes     []string
 	pmasked   []bool // parameter i belongs to a masked column
+	pvals     []myprog.Val
+	pcols     []myprog.ColSpec
 }
 
 // myIsNumber: the value is the decimal text of a positive integer that fits 63 bits (what MySQL stores for the
@@ -390,6 +476,7 @@ func (r *myRendered) lit(v myprog.Val, col myprog.ColSpec) string {
 		}
 		r.params = append(r.params, myprog.ParamOf(v, lt, r.wr.PSeed+7*len(r.params)))
 		r.pmasked = append(r.pmasked, col.Kind == myprog.KMask)
+		r.pvals, r.pcols = append(r.pvals, v), append(r.pcols, col)
 		return "?"
 	}
 	if number {
@@ -473,6 +560,12 @@ func myWriteSQL(tb myprog.TableSpec, wr MyWrite, op string, rows [][]myprog.Val,
 	}
 	return b.String(), r
 }
+
+// mySQLPrepFindings: with VERIF_C11_SQLPREP set the classes of three defects of acra's handling of the SQL syntax for
+// prepared statements are generated (props/c11/proposed-fixes 02-04; the check is red on a tree without the fixes):
+// PREPARE ... FROM @Variable with capitals in the variable's name; an empty value of a protected column in a SET
+// statement that also sets other variables; _binary before the literal of a SET statement.
+func mySQLPrepFindings() bool { return os.Getenv("VERIF_C11_SQLPREP") != "" }
 
 // myLongDataSig is the signature of the proposed open finding: acra relays COM_STMT_SEND_LONG_DATA as it is (the
 // value of a protected column reaches the database in clear) and then takes the COM_STMT_EXECUTE, which does not
@@ -599,6 +692,11 @@ func CheckMaskMySQL(c MyMaskCase) (vs hx.Vs, nontrivial bool, classes []string) 
 	}()
 	w := fix.TheWorld()
 	debug := os.Getenv("VERIF_DEBUG") != ""
+	if os.Getenv("VERIF_DEBUG") == "2" {
+		// acra's own log on stderr (diagnostics only)
+		logrus.SetLevel(logrus.DebugLevel)
+		logrus.SetOutput(os.Stderr)
+	}
 	if len(c.Rows) == 0 || len(c.Cols) == 0 || len(c.Wins) != len(c.Cols) || len(c.Writes) != len(c.Rows) || len(c.Reads) == 0 {
 		vs.Add("harness:case", "malformed case: %d columns, %d windows, %d rows, %d writes, %d reads", len(c.Cols), len(c.Wins), len(c.Rows), len(c.Writes), len(c.Reads))
 		return
@@ -889,6 +987,79 @@ func CheckMaskMySQL(c MyMaskCase) (vs hx.Vs, nontrivial bool, classes []string) 
 		if op != "update" {
 			cl["write-form:"+wr.Form] = true
 		}
+		if pr := wr.SQLPrep; pr != nil && op != "ondup" && !wr.Prepared && !(op == "insert" && len(multi) >= 2 && multi[0] == r) {
+			// SQL syntax for prepared statements: every value through a user variable named after its column
+			wp := wr
+			wp.Prepared, wp.LitEvery, wp.LongData = true, 0, false
+			text, pd := myWriteSQL(tb, wp, op, [][]myprog.Val{full(r)}, full(r), key)
+			var sets, using []string
+			lr := &myRendered{}
+			for i, v := range pd.pvals {
+				name := "@" + myMaskTable + "__" + pd.pcols[i].Name
+				if pr.Using {
+					name = strings.ToUpper(name)
+				}
+				var text string
+				if !myprog.IsInt(pd.pcols[i].Logical()) && myIsNumber(v) && (wr.Spelling+i)%2 == 0 {
+					text = string(v.B)
+					lr.spellings = append(lr.spellings, "bare-number")
+					lr.notes = append(lr.notes, "number-as-numeric-literal/"+pd.pcols[i].Kind)
+				} else {
+					sp := (wr.Spelling + i) % 9
+					if sp < 0 {
+						sp = -sp
+					}
+					if !pr.Unrestricted {
+						// (_binary before the literal of a SET statement: proposed fix 04) hex spellings instead
+						if sp >= 6 {
+							sp -= 3
+						}
+						if !v.Null && !utf8.Valid(v.B) && sp < 3 {
+							sp += 3
+						}
+					}
+					var spn string
+					text, spn = myprog.Literal(v, pd.pcols[i].Logical(), sp)
+					lr.spellings = append(lr.spellings, spn)
+				}
+				sets = append(sets, name+" = "+text)
+				using = append(using, name)
+			}
+			// (proposed fix 03) an empty value of a protected column makes acra give up on the whole SET statement and
+			// forward it as it is - with the values of the other variables in clear. Unless the case says otherwise such
+			// a row gets one SET per variable.
+			separate := pr.Twice
+			if !pr.Unrestricted {
+				for i, v := range pd.pvals {
+					if pd.pcols[i].Protected() && !v.Null && len(v.B) == 0 {
+						separate = true
+					}
+				}
+			}
+			var stmts []string
+			if separate {
+				for _, a := range sets {
+					stmts = append(stmts, "SET "+a)
+				}
+			} else {
+				stmts = append(stmts, "SET "+strings.Join(sets, ", "))
+			}
+			quoted, _ := myprog.Literal(myprog.Val{B: []byte(text)}, myprog.LStr, map[bool]int{false: 0, true: 2}[pr.DQuote])
+			stmts = append(stmts, "PREPARE "+pr.name(0)+" FROM "+quoted, "EXECUTE "+pr.name(1)+" USING "+strings.Join(using, ", "))
+			if pr.Dealloc > 0 {
+				stmts = append(stmts, map[int]string{1: "DEALLOCATE", 2: "DROP"}[pr.Dealloc]+" PREPARE "+pr.name(2))
+			}
+			for i, st := range stmts {
+				rdi := &myRendered{}
+				if i == 0 {
+					rdi = lr // (the spellings of the literals)
+				}
+				if !run(MyWrite{}, "sql-prepare/"+op, st, rdi) {
+					return
+				}
+			}
+			continue
+		}
 		if !run(wr, op, sql, rd) {
 			return
 		}
@@ -1028,8 +1199,13 @@ func CheckMaskMySQL(c MyMaskCase) (vs hx.Vs, nontrivial bool, classes []string) 
 		}
 		ok := func() bool {
 			defer s2.Close()
-			for _, rd := range c.Reads {
-				// the statement
+			// the statements
+			type plan struct {
+				sql   string
+				order []int // table columns in the result
+			}
+			plans := make([]plan, len(c.Reads))
+			for ri, rd := range c.Reads {
 				var order []int
 				for i := range tb.Cols {
 					if !rd.Star && i > 0 && rd.Skip&(1<<(i-1)) != 0 {
@@ -1039,6 +1215,7 @@ func CheckMaskMySQL(c MyMaskCase) (vs hx.Vs, nontrivial bool, classes []string) 
 					order = append(order, i)
 				}
 				sql := "SELECT * FROM " + myMaskTable
+				qual := ""
 				if !rd.Star {
 					if rd.Reverse {
 						for i, j := 0, len(order)-1; i < j; i, j = i+1, j-1 {
@@ -1068,18 +1245,24 @@ func CheckMaskMySQL(c MyMaskCase) (vs hx.Vs, nontrivial bool, classes []string) 
 					sql = "SELECT " + strings.Join(names, ", ") + " FROM " + myMaskTable
 					if rd.Alias {
 						sql += " AS q"
+						qual = "q."
 					}
 				}
-				proto := "text"
+				if rd.Prep != nil && rd.Prep.Using {
+					sql += " WHERE " + qual + "id <> ?"
+				}
+				plans[ri] = plan{sql, order}
+			}
+			// send runs one COM_QUERY (or, binary, COM_STMT_PREPARE + COM_STMT_EXECUTE); nil = stop
+			send := func(sql, proto string, binary bool) *mysess.Reply {
 				var rep *mysess.Reply
 				var err error
-				if rd.Binary {
-					proto = "binary"
+				if binary {
 					var ps *mysess.Stmt
 					ps, err = s2.Prepare(sql)
 					if err == nil && ps.Err != nil {
 						vs.Add("statement-error:mysql:read:prepare", "COM_STMT_PREPARE %q by %s: %d %q", sql, reader, ps.Err.Code, ps.Err.Message)
-						return false
+						return nil
 					}
 					if err == nil {
 						rep, err = s2.Execute(ps, nil)
@@ -1087,43 +1270,57 @@ func CheckMaskMySQL(c MyMaskCase) (vs hx.Vs, nontrivial bool, classes []string) 
 				} else {
 					rep, err = s2.Query(sql)
 				}
+				if debug {
+					fmt.Printf("READ by %s (%s) %s\n", reader, proto, sql)
+					recv := s2.DB.Received()
+					if len(recv) > 0 {
+						fmt.Printf("   DB got %s %.300s\n", recv[len(recv)-1].Kind, recv[len(recv)-1].SQL)
+					}
+				}
 				if errors.Is(err, mysess.ErrTimeout) {
 					inconclusive("reading")
-					return false
+					return nil
 				}
 				if err != nil {
 					what := fmt.Sprintf("%s read by %s (%s)", proto, reader, sql)
 					if errors.Is(err, mysess.ErrMalformed) {
 						if ps := s2.Panics(); len(ps) == 0 {
 							vs.Add("malformed-reply:mysql:"+proto, "%s: %v", what, err)
-							return false
+							return nil
 						}
 					}
 					broken(s2, "session-broken:mysql:read:"+proto, what, err)
+					return nil
+				}
+				return rep
+			}
+			// command: a statement that is answered with OK (PREPARE, SET, DEALLOCATE)
+			command := func(sql string) bool {
+				rep := send(sql, "sql-prepare", false)
+				if rep == nil {
 					return false
 				}
-				cl["read:"+proto] = true
-				if rd.Star {
-					cl["read:star"] = true
-				} else {
-					cl["read:list"] = true
+				if rs := rep.First(); rs.Err != nil || rs.OK == nil {
+					vs.Add("statement-error:mysql:read:sql-prepare", "%q by %s was not answered with OK: %v", sql, reader, rs.Err)
+					return false
 				}
-				if rd.Alias {
-					cl["read:alias"] = true
-				}
+				return true
+			}
+			// rows judges a result set that must hold the columns of pl
+			rows := func(pl plan, rep *mysess.Reply, proto, sql string) {
 				rs := rep.First()
 				if rs.Err != nil {
-					// (what each reader's column owns decides the class)
 					vs.Add("statement-error:mysql:read:"+proto, "%q by %s: %d %q", sql, reader, rs.Err.Code, rs.Err.Message)
-					continue
+					return
 				}
+				order := pl.order
 				if rs.OK != nil || len(rep.Sets) != 1 || len(rs.Fields) != len(order) {
 					vs.Add("no-result-set:mysql:read", "%q by %s: %d result sets, %d fields, want %d", sql, reader, len(rep.Sets), len(rs.Fields), len(order))
-					continue
+					return
 				}
 				if len(rs.Rows) != len(values) {
-					vs.Add("row-count:mysql:read", "%s got %d rows, %d stored", reader, len(rs.Rows), len(values))
-					continue
+					vs.Add("row-count:mysql:read", "%s got %d rows, %d stored (%s)", reader, len(rs.Rows), len(values), sql)
+					return
 				}
 				idPos := 0 // position of the key in the result
 				for k, ci := range order {
@@ -1132,7 +1329,6 @@ func CheckMaskMySQL(c MyMaskCase) (vs hx.Vs, nontrivial bool, classes []string) 
 					}
 				}
 				if debug {
-					fmt.Printf("READ by %s (%s) %s\n", reader, proto, sql)
 					for _, f := range rs.Fields {
 						fmt.Printf("   field %s/%s %s\n", f.Name, f.OrgName, myTypeName(f.Type))
 					}
@@ -1155,6 +1351,128 @@ func CheckMaskMySQL(c MyMaskCase) (vs hx.Vs, nontrivial bool, classes []string) 
 							myCheckCell(&vs, cl, w, c, cols[ci-1], cells[r][ci-1], row[k], rs.Fields[k], rs.Binary, reader)
 						}
 					}
+				}
+			}
+			// SQL-level prepared statements of the connection, as MySQL keeps them: lower-cased name -> read whose
+			// SELECT is registered under it
+			registered := map[string]int{}
+			prepare := func(ri int) bool {
+				pr := c.Reads[ri].Prep
+				text, _ := myprog.Literal(myprog.Val{B: []byte(plans[ri].sql)}, myprog.LStr, map[bool]int{false: 0, true: 2}[pr.DQuote])
+				if pr.FromVar != "" {
+					if !command("SET @" + pr.FromVar + " = " + text) {
+						return false
+					}
+					text = "@" + pr.FromVar
+					cl["read:sql-prepare/text-from-variable"] = true
+					if pr.FromVar != strings.ToLower(pr.FromVar) {
+						cl["read:sql-prepare/text-from-variable/capitals-in-its-name"] = true
+					}
+				}
+				if !command("PREPARE " + pr.name(0) + " FROM " + text) {
+					return false
+				}
+				key := strings.ToLower(pr.Name)
+				if _, ok := registered[key]; ok {
+					cl["read:sql-prepare/name-prepared-again-replaces"] = true
+				}
+				registered[key] = ri
+				return true
+			}
+			used := map[string]bool{} // names that were deallocated once
+			if c.PrepFirst {
+				n := 0
+				for ri, rd := range c.Reads {
+					if rd.Prep != nil {
+						if !prepare(ri) {
+							return false
+						}
+						n++
+					}
+				}
+				if n >= 2 {
+					cl["read:sql-prepare/several-prepared-before-the-first-is-executed"] = true
+				}
+			}
+			for ri, rd := range c.Reads {
+				pl := plans[ri]
+				if rd.Prep == nil {
+					proto := "text"
+					if rd.Binary {
+						proto = "binary"
+					}
+					rep := send(pl.sql, proto, rd.Binary)
+					if rep == nil {
+						return false
+					}
+					cl["read:"+proto] = true
+					rows(pl, rep, proto, pl.sql)
+				} else {
+					pr := rd.Prep
+					key := strings.ToLower(pr.Name)
+					if !c.PrepFirst {
+						if used[key] {
+							cl["read:sql-prepare/name-reused-after-deallocate"] = true
+						}
+						if !prepare(ri) {
+							return false
+						}
+					}
+					// the statement that runs is the one registered under the name now
+					cur, ok := registered[key]
+					if !ok {
+						cl["read:sql-prepare/deallocated-by-a-namesake(not executed)"] = true
+						continue
+					}
+					exec := "EXECUTE " + pr.name(1)
+					if c.Reads[cur].Prep.Using {
+						if !command("SET @k = 0") {
+							return false
+						}
+						exec += " USING @k"
+						cl["read:sql-prepare/using-variable"] = true
+					}
+					for n := 0; n < 1 || (n < 2 && pr.Twice); n++ {
+						rep := send(exec, "sql-prepare", false)
+						if rep == nil {
+							return false
+						}
+						rows(plans[cur], rep, "sql-prepare", exec+" <- "+plans[cur].sql)
+					}
+					cl["read:sql-prepare"] = true
+					for k, use := range []string{"prepare", "execute", "deallocate"} {
+						if k == 2 && pr.Dealloc == 0 {
+							continue
+						}
+						sp := 0
+						if k < len(pr.Spell) {
+							sp = pr.Spell[k]
+						}
+						what := map[int]string{0: "as-it-is", 1: "lower-case", 2: "upper-case"}[sp&3]
+						if pr.Name == strings.ToLower(pr.Name) && sp&3 != 2 {
+							what = "lower-case"
+						}
+						if sp&4 != 0 {
+							what += "/back-quoted"
+						}
+						cl["read:sql-prepare/name-in-"+use+":"+what] = true
+					}
+					if pr.Dealloc > 0 {
+						if !command(map[int]string{1: "DEALLOCATE", 2: "DROP"}[pr.Dealloc] + " PREPARE " + pr.name(2)) {
+							return false
+						}
+						delete(registered, key)
+						used[key] = true
+						cl["read:sql-prepare/deallocate"] = true
+					}
+				}
+				if rd.Star {
+					cl["read:star"] = true
+				} else {
+					cl["read:list"] = true
+				}
+				if rd.Alias {
+					cl["read:alias"] = true
 				}
 			}
 			return true
@@ -1334,7 +1652,7 @@ func myCheckCell(vs *hx.Vs, cl map[string]bool, w *fix.World, c MyMaskCase, col 
 
 func TestMaskSessionsMySQL(t *testing.T) {
 	masks, typed := myCombos()
-	R.Rule("TestMaskSessionsMySQL", fmt.Sprintf("one MySQL table with 1-3 masked columns drawn from the %d combinations MapTableSchemaStoreFromConfig(UseMySQL) accepts (acrastruct / acrablock / default envelope, untyped / data_type str / bytes by name or MySQL type id, failure policies, client_id absent / the connection's / another identity's) with generated pattern, side and window (0, inside, len-1, len, len+1, absolute; relative to the value of row 0) and 0-3 plain (VARCHAR, BLOB, INT) or encrypted (untyped, %d typed str/bytes combinations) columns at generated positions; 1-3 rows of generated values (unique markers, bytes >= 0x80, UTF-8, tag runs, bogus container headers, copies of the pattern, whole envelopes of alice / bobby, SQL-lexical bytes, numbers (also spelled as numeric literals / sent as integer parameters), the empty value, NULL; text-safe parts for str columns) written by alice through acra's real MySQL proxy: INSERT (column list in table or reverse order / no list / SET form / multi-row), REPLACE and INSERT ... ON DUPLICATE KEY UPDATE on new and existing keys, UPDATE over a decoy row; COM_QUERY with literals in the nine MySQL spellings acra's grammar reads or COM_STMT_PREPARE + COM_STMT_EXECUTE with generated parameter types (literals mixed in), with or without CLIENT_DEPRECATE_EOF (with VERIF_C11_LONGDATA also parameters supplied by COM_STMT_SEND_LONG_DATA - the proposed open finding long-data-parameter:mysql); then alice, bobby and carol each read everything in a session of their own over the same fake database, text and / or binary protocol, star / list in table or reverse order / a subset of the columns / a column twice / aliases. Oracle per cell, by the cell's own column (its owner = the column's client_id or the writing connection): stored form = clear window + one container of the configured kind that the owner's keys open (library) to the rest, whole value inside when len <= window; owner reads the original; the others read exactly window||pattern / pattern||window / pattern; no 4-byte slice of the hidden part and no 8-byte slice of the stored envelope in the cell; no marker of a hidden part (raw, hex, base64, octal) and no 16-byte slice of a stored envelope anywhere in the bytes a non-owner received; NULL stays NULL, the empty value stays empty; plain neighbours unchanged for everybody, encrypted neighbours readable by their owner, never in plaintext for others, untyped ones as stored; no statement error, no handler panic, no closed session. Non-trivial = some masked cell with 0 < window < len (every case is read by two readers that do not own it)", len(masks), len(typed)))
+	R.Rule("TestMaskSessionsMySQL", fmt.Sprintf("one MySQL table with 1-3 masked columns drawn from the %d combinations MapTableSchemaStoreFromConfig(UseMySQL) accepts (acrastruct / acrablock / default envelope, untyped / data_type str / bytes by name or MySQL type id, failure policies, client_id absent / the connection's / another identity's) with generated pattern, side and window (0, inside, len-1, len, len+1, absolute; relative to the value of row 0) and 0-3 plain (VARCHAR, BLOB, INT) or encrypted (untyped, %d typed str/bytes combinations) columns at generated positions; 1-3 rows of generated values (unique markers, bytes >= 0x80, UTF-8, tag runs, bogus container headers, copies of the pattern, whole envelopes of alice / bobby, SQL-lexical bytes, numbers (also spelled as numeric literals / sent as integer parameters), the empty value, NULL; text-safe parts for str columns) written by alice through acra's real MySQL proxy: INSERT (column list in table or reverse order / no list / SET form / multi-row), REPLACE and INSERT ... ON DUPLICATE KEY UPDATE on new and existing keys, UPDATE over a decoy row; COM_QUERY with literals in the nine MySQL spellings acra's grammar reads or COM_STMT_PREPARE + COM_STMT_EXECUTE with generated parameter types (literals mixed in), with or without CLIENT_DEPRECATE_EOF (with VERIF_C11_LONGDATA also parameters supplied by COM_STMT_SEND_LONG_DATA - the proposed open finding long-data-parameter:mysql); then alice, bobby and carol each read everything in a session of their own over the same fake database, text and / or binary protocol, star / list in table or reverse order / a subset of the columns / a column twice / aliases, or through the SQL syntax for prepared statements sent with COM_QUERY: PREPARE <name> FROM '<select>' | the same in double quotes | @variable (SET before), EXECUTE <name> [USING @k] (once or twice), DEALLOCATE | DROP PREPARE <name>, with statement names from a small pool spelled anew at every use (as written / lower / upper case, back-quoted), names reused after DEALLOCATE, prepared again without DEALLOCATE, all PREPAREs sent before the first EXECUTE; the statement that runs is the one MySQL has under the name at that moment. Writes of one row also as SET @masked__<column> = <literal> (one SET or one per variable, variable names in lower or upper case); PREPARE <name> FROM 'INSERT | REPLACE | UPDATE with placeholders'; EXECUTE <name> USING the variables. (With VERIF_C11_SQLPREP the shapes of proposed fixes 02-04: capitals in the name of the variable that holds the statement text, an empty protected value in a SET of several variables, _binary literals in SET.) Oracle per cell, by the cell's own column (its owner = the column's client_id or the writing connection): stored form = clear window + one container of the configured kind that the owner's keys open (library) to the rest, whole value inside when len <= window; owner reads the original; the others read exactly window||pattern / pattern||window / pattern; no 4-byte slice of the hidden part and no 8-byte slice of the stored envelope in the cell; no marker of a hidden part (raw, hex, base64, octal) and no 16-byte slice of a stored envelope anywhere in the bytes a non-owner received; NULL stays NULL, the empty value stays empty; plain neighbours unchanged for everybody, encrypted neighbours readable by their owner, never in plaintext for others, untyped ones as stored; no statement error, no handler panic, no closed session. Non-trivial = some masked cell with 0 < window < len (every case is read by two readers that do not own it)", len(masks), len(typed)))
 	hx.Checks(50, 1200)
 	rapid.Check(t, func(rt *rapid.T) {
 		c := genMyMaskCase(rt)
